@@ -323,8 +323,16 @@ def judge_shared_readers(s, docs):
         try:
             readers = sorted(mcmod.MosReader.from_string(d) for d in docs)
             mc1 = mcmod.MosCollection(list(readers), allow_incomplete=True)
-            mc2 = mcmod.MosCollection(list(readers), allow_incomplete=True)
         except Exception:
+            return
+        try:
+            mc2 = mcmod.MosCollection(list(readers), allow_incomplete=True)
+        except Exception as e:
+            # the same readers were good enough for the first collection
+            s.evaluations += 1
+            s.custom_violation('collections-built-from-the-same-readers-share-state',
+                               {'second_collection_cannot_be_built': type(e).__name__, 'msg': str(e)[:120]},
+                               {'type': 'collection', 'docs': docs, 'strict': False, 'shared_readers': True}, status='readers')
             return
     finally:
         EV.STATE['quiet'] -= 1
@@ -373,6 +381,13 @@ def run(s):
     for c in range(480 if q else 20000):
         if s.mine(c):
             any_kind_reuse(s, c)
+    if s.mine(2):
+        # readers over LARGE documents (a running order of several hundred stories, > 64 KiB) used by two collections
+        big = B.ro_doc('RO', 1, [gen.simple_story('L%04d' % k, 2) for k in range(450)], ed_start='2020-01-01T12:30:00')
+        docs = [big, B.msg_doc('roStoryAppend', 5, carried=[gen.simple_story('N%03d' % k, 2) for k in range(250)]),
+                B.msg_doc('roItemDelete', 6, story_ref='L0007', ids=['L0007.0']), B.msg_doc('roDelete', 9)]
+        s.hist['large_document_reader_cases'] += 1
+        judge_shared_readers(s, docs)
 
 
 def replay(s, data):
